@@ -111,6 +111,21 @@ CHECKS = {
             "must be rejected; the shipped definitions are checked the same way.",
             "Sibling keys kept distinct; an unnamed list around a single named list, empty lists and trailing text are not generated (undocumented).",
             "DESIGN.md 3/C19"),
+    "C04": ("model_checking", "vrt+explore", "exhaustive enumeration of cut sets of frame streams on the real HsmsProtocol + delay-bounded schedule exploration; frame fields vs independent codec",
+            "Frames: header field boundary sets (1 and 2 deviations) x all nine STypes x body lengths at 255/256/65535/65536 (2^20 thorough) compared "
+            "byte for byte with ref/e37.py and decoded back. Streams: 12 sequences of 1-3 frames are fed to a real SELECTED HsmsProtocol for every "
+            "set of <= 2 (3) cut positions, the all-single-bytes partition and all 2^13 partitions of a 14-byte frame; deliveries and control "
+            "replies must equal those of the uncut stream. Coalesced arrival is explored over all schedules with <= K delays at line granularity.",
+            "LoopConnection delivers segments from its receiver thread like TcpConnection (<=1024-byte reads); stepwise mode uses the default schedule.",
+            "DESIGN.md 3/C04"),
+    "C18": ("model_checking", "vrt+explore", "explicit-state search over generated machine definitions x transition sequences + delay-bounded schedule exploration of concurrent triggers",
+            "Programs: every machine with <= 3 (4) states in every forest of depth <= 2, 1-3 transitions with every source set/destination among "
+            "leaves and optionally one enter handler requesting a transition, plus the three shipped machines (control in all 8 configurations): BFS "
+            "over transition-name sequences to closure against the reference semantics (refused => raises, nothing changes; destination; active "
+            "set = current + ancestors; called once; enter/leave balanced). Concurrency: for every reachable state of the shipped machines and every "
+            "pair of transitions allowed there, two threads request them under every schedule with <= K delays (lines of state_machine.py); the "
+            "outcome must equal one of the two sequential orders.",
+            "Internal vs external transition semantics both accepted; handler exceptions other than the engine's own are not in scope.", "DESIGN.md 3/C18"),
 }
 
 NOT_YET = "check not built yet in this revision of /verif (see DESIGN.md section 6 build order)"
